@@ -202,6 +202,9 @@ fn string_strategy() -> BoxedStrategy<String> {
         // ASCII and Unicode white space, separators, exponent / radix letters) at any position of a number
         4 => ("[0-9]{0,7}", proptest::sample::select(TRICKY.to_vec()), "[0-9]{0,7}").prop_map(|(a, c, b)| format!("{a}{c}{b}")),
         1 => ("[0-9]{1,7}", proptest::sample::select(vec!["\r\n", "\n\n", "\n\r", " \n", "\t\n", "\0\0"])).prop_map(|(a, c)| format!("{a}{c}")),
+        // a number followed by what follows an id in the files it is copied from: an OBO comment or modifier block,
+        // a label, a separator, another id
+        2 => ("\\+?[0-9]{1,10}", proptest::sample::select(vec![" ! name", " ! ", " !", "! x", "!", " {source=\"x\"}", " {}", " [x]", " # x", " // x", "\tname", " name", " HP:1", ",HP:1", ";", "|2", "/2", " !  ! "]), "[ -~]{0,4}").prop_map(|(a, c, t)| format!("{a}{c}{t}")),
     ];
     let any_chars = proptest::collection::vec(any::<char>(), 0..14).prop_map(|v| v.into_iter().collect::<String>());
     // structural edits of an acceptable text, the way mutational fuzzers make them: a slice of the text is
@@ -275,7 +278,7 @@ impl Property for C20 {
         "C20"
     }
     fn rule(&self) -> String {
-        "Enumerated (exhaustive sub-sweep, both tiers): every id 0..10^7 plus 10^7..10^7+10^4, powers of two and the u32 borders: to_string == 'HP:'+7-digit zero padding, try_from(to_string) == id, from(to_be_bytes) == id, from_u32/as_u32/to_usize/From<u32>/From<u64>/From<usize>/From<u16> agree, From<String>, == &str, Debug and Display through placeholders with precision / width / alignment / fill / sign flags (the rendering stays 'HP:' + 7 digits) on every 64th id. Generated: strings = prefix pool (HP:, hp:, short, multi-byte prefixes whose 3rd byte lies inside a character) x body pool (digits, leading zeros, +/-, spaces, overflow 4294967295/6, non-ASCII digits, random unicode, one control / white-space / separator / exponent character at any position of a number, trailing CR/LF), structural edits of acceptable text (a slice, half of the time the prefix, repeated / copied to the end / moved / removed / reversed: 'HP:HP:5', 'HP:5HP:5') long text of up to 300 bytes with a multi-byte character at a generated offset (across bytes 64 / 128 / 256), plus arbitrary strings of any chars; oracle = hand-written reference parser (>=4 bytes, byte 3 on a char boundary, rest matches +?[0-9]+ and <= u32::MAX); never panics; Gene/Omim/OrphaId::try_from checked with the same grammar on the whole string. evaluations = ids enumerated + strings checked. Non-trivial = string is not the canonical rendering of an id; distinct by string.".into()
+        "Enumerated (exhaustive sub-sweep, both tiers): every id 0..10^7 plus 10^7..10^7+10^4, powers of two and the u32 borders: to_string == 'HP:'+7-digit zero padding, try_from(to_string) == id, from(to_be_bytes) == id, from_u32/as_u32/to_usize/From<u32>/From<u64>/From<usize>/From<u16> agree, From<String>, == &str, Debug and Display through placeholders with precision / width / alignment / fill / sign flags (the rendering stays 'HP:' + 7 digits) on every 64th id. Generated: strings = prefix pool (HP:, hp:, short, multi-byte prefixes whose 3rd byte lies inside a character) x body pool (digits, leading zeros, +/-, spaces, overflow 4294967295/6, non-ASCII digits, random unicode, one control / white-space / separator / exponent character at any position of a number, trailing CR/LF, a number followed by an OBO comment / modifier block / label / separator / second id), structural edits of acceptable text (a slice, half of the time the prefix, repeated / copied to the end / moved / removed / reversed: 'HP:HP:5', 'HP:5HP:5') long text of up to 300 bytes with a multi-byte character at a generated offset (across bytes 64 / 128 / 256), plus arbitrary strings of any chars; oracle = hand-written reference parser (>=4 bytes, byte 3 on a char boundary, rest matches +?[0-9]+ and <= u32::MAX); never panics; Gene/Omim/OrphaId::try_from checked with the same grammar on the whole string. evaluations = ids enumerated + strings checked. Non-trivial = string is not the canonical rendering of an id; distinct by string.".into()
     }
     fn assumptions(&self) -> Vec<String> {
         vec!["'parsable to u32' is Rust's grammar: optional '+', ASCII digits, value <= u32::MAX".into()]
